@@ -80,6 +80,9 @@ inductive Op
   | attach (atts : List (String × List String))
   | setLabels (lab : List (Nat × Bool × Bool))
   | prune
+  /-- `add_node` / `add_attacker` called with an object that exists already -/
+  | addNodeObj (r : Nat) (id : Option Int)
+  | addAttackerObj (a : Nat) (id : Option Int) (entry reached : List Int)
 
 def okOr (s : St) : Except Err St → St
   | .ok s' => s'
@@ -98,6 +101,8 @@ def applyOp (s : St) : Op → St
   | .attach atts => okOr s (attach s atts)
   | .setLabels lab => setLabels s lab
   | .prune => prune s
+  | .addNodeObj r id => if r ∈ s.nodes then okOr s (addNodeObj s r id) else s
+  | .addAttackerObj a id e r => if a ∈ s.attackers then okOr s (addAttackerObj s a id e r) else s
 
 /-- side condition on an operation for `NamesExact`: `add_node` with an unused full name -/
 def Op.nameFresh (s : St) : Op → Prop
